@@ -165,27 +165,70 @@ def p2(prog, ctx):
 
 def p3(prog, ctx):
     """The numeric id is taken from group_numeric_ids by the read's own group; default when groups are ignored."""
-    f = prog.func(LRC, "AssignedFeatureCounter.add_read_info")
-    hits = [st for st in walk_no_nested(f) if isinstance(st, ast.Assign) and "group_numeric_ids[" in src(st.value)]
-    if len(hits) != 1:
-        raise AnalysisError("add_read_info: expected one lookup in group_numeric_ids")
-    st = hits[0]
-    prev = [s for s in walk_no_nested(f) if isinstance(s, ast.Assign) and src(s.targets[0]) == src(st.value.slice)
-            and s.lineno < st.lineno]
-    okp = prev and isinstance(prev[-1].value, ast.IfExp) and "ignore_read_groups" in src(prev[-1].value.test) \
-        and "default_group_id" in src(prev[-1].value.body) and src(prev[-1].value.orelse) == "read_assignment.read_group"
-    if not okp:
-        ctx.fail("P3", st, f._qualname, src(st), "group id is not 'default when ignoring groups else read_assignment.read_group'")
-    else:
-        ctx.ok("P3", "%s:%d" % (LRC, st.lineno), "group = default if ignore_read_groups else the read's own read_group")
-    # the same numeric id is used for every inc in the function
-    incs = [c for c in walk_no_nested(f) if isinstance(c, ast.Call) and isinstance(c.func, ast.Attribute) and c.func.attr == "inc"]
-    bad = [c for c in incs if not c.args or src(c.args[0]) != src(st.targets[0])]
-    if bad or len(incs) < 3:
-        ctx.fail("P3", (bad or [f])[0], f._qualname, src((bad or [f])[0]) if bad else "inc sites",
-                 "a count is added under something else than the read's group id")
-    else:
-        ctx.ok("P3", "%s:%d" % (LRC, f.lineno), "all %d increments use the read's group id" % len(incs))
+    # path-wise: whatever group a count is added under is group_numeric_ids[K] with K = the default group when groups are ignored
+    # and the read's own group otherwise (helpers of the class are inlined, local aliases substituted)
+    n_inc = 0
+    for fname, own in (("add_read_info", r"^\w+\.read_group$"), ("add_read_info_raw", r"^group_id$")):
+        f = prog.func_inlined(LRC, "AssignedFeatureCounter." + fname)
+        bad = None
+        seen = set()
+        for pth in flow.paths(f):
+            env = {}
+            ignore = None          # truth of self.ignore_read_groups on this path, if tested
+            for ev in pth.events:
+                if ev[0] == "cond":
+                    for atom, pol in flow.conjuncts(ev[1], ev[2]):
+                        if src(atom) == "self.ignore_read_groups":
+                            ignore = pol
+                if ev[0] != "stmt":
+                    continue
+                st = ev[1]
+                if isinstance(st, ast.Assign) and len(st.targets) == 1 and isinstance(st.targets[0], ast.Name):
+                    env[st.targets[0].id] = symexec.subst(st.value, env)
+                for c in ([x for x in ast.walk(st) if isinstance(x, ast.Call)] if not isinstance(st, (ast.If, ast.For, ast.While, ast.With, ast.Try)) else []):
+                    if not (isinstance(c.func, ast.Attribute) and c.func.attr == "inc" and "feature_counter" in src(c.func) and c.args):
+                        continue
+                    g = symexec.subst(c.args[0], env)
+                    ok = False
+                    why = src(g)
+                    if isinstance(g, ast.Subscript) and src(g.value) == "self.group_numeric_ids":
+                        k = g.slice
+                        alts = []
+
+                        def leaves(e, cond):
+                            if isinstance(e, ast.IfExp):
+                                leaves(e.body, cond + [(src(e.test), True)])
+                                leaves(e.orelse, cond + [(src(e.test), False)])
+                            else:
+                                alts.append((e, cond))
+                        leaves(k, [])
+                        ok = True
+                        for e, cond in alts:
+                            ign = ignore
+                            for t, pol in cond:
+                                if t == "self.ignore_read_groups":
+                                    ign = pol
+                            te = src(e)
+                            if ign is True and te.endswith("default_group_id"):
+                                continue
+                            if ign is False and re.match(own, te):
+                                continue
+                            if ign is None and re.match(own, te) and False:
+                                continue
+                            ok = False
+                            why = "%s when ignore_read_groups is %s" % (te, ign)
+                    key = (c.lineno, ok)
+                    if key not in seen:
+                        seen.add(key)
+                        n_inc += 1
+                    if not ok and bad is None:
+                        bad = (c, why, pth)
+        if bad:
+            ctx.fail("P3", bad[0], f._qualname, src(bad[0])[:90], "a count is added under %s: the group must be group_numeric_ids[default group] "
+                     "when groups are ignored and group_numeric_ids[the read's own group] otherwise" % bad[1], path=bad[2].describe()[:200])
+        else:
+            ctx.ok("P3", "%s:%d" % (LRC, f.lineno), "%s: every increment uses group_numeric_ids[default if ignore_read_groups else the read's group]" % fname)
+    ctx.floor("P3", "increment sites checked path-wise", n_inc, 4)
     # matrix and linear renderings read the same table with the same name list
     d = prog.func(LRC, "AssignedFeatureCounter.dump_grouped")
     t = src(d)
